@@ -37,6 +37,9 @@ def gen_config(rng, tier):
 
 def gen_spec(rng):
     nrec = rng.choice([1, 1, 2, 3, 5, 8, 13, 20])
+    if rng.random() < 0.03:
+        # a long series (1 Hz data): block-wise output paths only run on sizes like this
+        nrec = rng.choice([1000, 1001, 2049])
     nv = rng.randrange(1, 5)
     names = rng.sample(NAMES, nv)
     vars_ = []
@@ -70,7 +73,8 @@ def gen_spec(rng):
             vars_[-1]['dtype'] = 'f'
             vars_[-1]['missing'] = rng.choice([-999.9, -9999.9, -99.99, -9999, -888.8])
     ncom = rng.randrange(0, 6)
-    comments = {k: rng.choice(['nobody@example.org', 'NASA DC-8', 'R0', 'see header',
+    comments = {k: rng.choice(['see\x0cpage 2', 'left\x85right', 'a\u2028b', 'tab\there',
+                               'nobody@example.org', 'NASA DC-8', 'R0', 'see header',
                                'value: with colon', 'x', '', '  ', 'N/A'])
                 for k in rng.sample(COMMENTS, ncom)}
     if rng.random() < 0.2:
